@@ -124,11 +124,11 @@ structure Obj (K : Type) where
 /-- composite shape `obj.shape = proj_data.shape[:-unit_ndims]` (projective.py:311) -/
 def Obj.shape (X : Obj K) : List Nat := X.proj.shape.take (X.proj.shape.length - X.kind.unitNdims)
 
-/-- `Transformation.apply(obj, broadcast)` (projective.py:1198): `matrix_product` of the primary,
-auxiliary and dual data with `self.matrix`, each with its own unit rank; class kept.
-(The dual block is multiplied by the matrix itself — `_apply_to_data` is called without
-`dual=True` — which is what the code does.) -/
-def Obj.apply [Add K] [Mul K] [Zero K] (A : ND K) (X : Obj K) (mode : Bcast) : Except String (Obj K) :=
+/-- `Transformation.apply(obj, broadcast)` (projective.py:1198): `matrix_product` of the primary
+and auxiliary data with `self.matrix`, each with its own unit rank, and of the dual data with
+`utils.invert(self.matrix).swapaxes(-1,-2)` (`_apply_to_data(..., dual=True)`, as repaired);
+class kept.  The inverse transpose `AinvT` is supplied (`utils.invert` is LAPACK: a contract). -/
+def Obj.apply [Add K] [Mul K] [Zero K] (A AinvT : ND K) (X : Obj K) (mode : Bcast) : Except String (Obj K) :=
   match matrixProduct X.proj A X.kind.unitNdims 2 mode with
   | .error e => .error e
   | .ok p =>
@@ -139,7 +139,7 @@ def Obj.apply [Add K] [Mul K] [Zero K] (A : ND K) (X : Obj K) (mode : Bcast) : E
     | .ok a' =>
       match (match X.dual with
         | none => Except.ok none
-        | some d => (matrixProduct d A 1 2 mode).map some) with
+        | some d => (matrixProduct d AinvT 1 2 mode).map some) with
       | .error e => .error e
       | .ok d' => .ok ⟨X.kind, p, a', d'⟩
 
